@@ -480,7 +480,8 @@ class Check:
         "(builtin and typing spellings, nested), typing.Any and ordinary instances. Outcome compared with a subtype-"
         "based reference model; ordinary calls additionally compared with the same set minus every type[...] method; 2 cases "
         "in 3 also forward every call through 4 recurse / call_next sites (static, starred) of a router method, hosts "
-        "func / attr / OvldBase, and compare with the direct call; passed generics include typing.Any at nested slots. "
+        "func / attr / OvldBase, and compare with the direct call; passed generics include typing.Any at nested slots and "
+        "non-class arguments (None, the ... of a variadic tuple); ordinary arguments include instances carrying __origin__. "
         "Non-trivial = >=2 type[...] methods related by subtyping and a parametrised generic passed; distinct by case hash."
     )
     assumptions = [
